@@ -11,6 +11,19 @@ REQUIRE = {"V": ("nosv", "2.4.0"), "6": ("nanos6", "1.1.0"), "D": ("nodes", "1.0
            "T": ("tampi", "1.0.0"), "P": ("openmp", "1.1.0"), "K": ("kernel", "1.0.0")}
 
 
+_BLABELS = None
+
+
+def boundary_labels():
+    """Labels whose hash sits at a boundary of the gid computation (steering only)."""
+    global _BLABELS
+    if _BLABELS is None:
+        import json, os
+        p = os.path.join(os.path.dirname(os.path.dirname(os.path.abspath(__file__))), "spec", "labels.json")
+        _BLABELS = json.load(open(p))["labels"]
+    return _BLABELS
+
+
 def require_of(enabled):
     return {REQUIRE[m][0]: REQUIRE[m][1] for m in enabled if m in REQUIRE}
 
@@ -217,7 +230,8 @@ class Gen:
         x = r.random()
         if not info.types or x < 0.08:
             tid = self.next_type; self.next_type += 1
-            label = r.choice(["", "t%d" % tid, "type with spaces %d" % tid, "main", "x" * 30 + str(tid)])
+            label = r.choice(["", "t%d" % tid, "type with spaces %d" % tid, "main", "x" * 30 + str(tid)]
+                             + ([r.choice(boundary_labels())] if r.random() < 0.3 else []))
             return (th.key, mc + "Yc", obs.u32(tid) + label.encode() + b"\0", True)
         if not info.tasks or x < 0.25:
             task = self.next_task; self.next_task += 1
